@@ -145,7 +145,10 @@ def conc_step(case):
 
 def jobs_step(tier, seed):
     q = tier == "quick"
-    return [dict(h="C14.stepslice", p=dict(ix="slice", n=4 if q else 5, s=s)) for s in ((2, -2, 3) if q else (2, -2, 3, -3))]
+    out = [dict(h="C14.stepslice", p=dict(ix="slice", n=4 if q else 5, s=s)) for s in ((2, -2, 3) if q else (2, -2, 3, -3))]
+    # selections by masks (dense, run-length, run-length from a comparison): canonical result, the empty selection included
+    out += [dict(h="C14.stepslice", p=dict(ix=ix, n=3 if q else 4)) for ix in ("mask", "rlmask", "rlmask_ufunc")]
+    return out
 
 
 harness("C14.codec", jobs, sym, conc)
